@@ -1,4 +1,6 @@
 """C19 — hand-written derivatives are the true derivatives.
+(Every hand-written backward is additionally run repeatedly through one retained graph: repeated_backward, kernel_impl,
+check_lncdf_vec; the diag=True code path and input gradients are part of the kernel cases.)
 Tie C.  The Coq model (Models/C19_derivs.v) holds the forward functions and the hand-written backward formulas of
 RBFCovariance, MaternCovariance, LogNormalCDF, _NaturalToMuVarSqrt (n = 1) and _NgdInterpTerms (n = 1), proved (Props/C19.v) to be the
 derivatives of the forward functions.  On every run the model is executed on the `expr` carrier (vm_compute, terms
@@ -60,6 +62,12 @@ def gen_kernel_case(rng, fam, k):
     n2 = rng.randint(1, 4)
     dec = [-2, -1, 0, 1, 2][k % 5]                 # 4 decades of lengthscales, all visited
     batch = ["none", "kernel", "kernel+x"][(k // 5) % 3]
+    # calls: K(x1, x2), K(x1), and the diag=True request K(x1, x2', diag=True) for x2' with as many rows as x1 (its own
+    # code path: Kernel.covar_dist diag branch; also reached by kernel(x1, x2').diagonal())
+    call = ["full", "sym", "diag"][(k // 15 + k) % 3] if k % 2 else rng.choice(["full", "sym", "diag"])
+    if call == "diag":
+        n1 = max(n1, 2) if rng.random() < 0.85 else n1
+        n2 = n1
     nb = 1 if batch == "none" else 2
     ls = [10.0 ** dec * rng.uniform(0.5, 2.0) for _ in range(nb)]
     l0 = 2.0 ** round(math.log2(10.0 ** dec))      # inputs live on a dyadic grid of the lengthscale's magnitude
@@ -68,12 +76,16 @@ def gen_kernel_case(rng, fam, k):
     x1 = [[pt() for _ in range(n1)] for _ in range(nxb)]
     x2 = [[pt() for _ in range(n2)] for _ in range(nxb)]
     for b in range(nxb):
-        if rng.random() < 0.6:                     # coincident points across x1 / x2
+        if call == "diag":
+            # coincident PAIRS (same row index: r = 0 on the requested diagonal) inside otherwise different x1, x2
+            if rng.random() < 0.75:
+                for i in rng.sample(range(n1), rng.randint(1, max(1, n1 - 1))):
+                    x2[b][i] = list(x1[b][i])
+        elif rng.random() < 0.6:                   # coincident points across x1 / x2
             x2[b][rng.randrange(n2)] = list(x1[b][rng.randrange(n1)])
         if n1 > 1 and rng.random() < 0.4:          # duplicates inside x1 (matter for the symmetric call)
             x1[b][-1] = list(x1[b][0])
-    call = rng.choice(["full", "sym"])
-    cols = n2 if call == "full" else n1
+    cols = n1 if call == "sym" else n2
     G = [[[rng.gauss(0, 1) for _ in range(cols)] for _ in range(n1)] for _ in range(nb)]
     return dict(kind="kernel", fam=fam, d=d, dec=dec, batch=batch, ls=ls, x1=x1, x2=x2, call=call, G=G)
 
@@ -96,14 +108,30 @@ def kernel_coq_cases(case, kern):
     for b, l in enumerate(ls):
         xb = b if len(case["x1"]) > 1 else 0
         xa = case["x1"][xb]
-        xc = case["x2"][xb] if case["call"] == "full" else xa
+        xc = xa if case["call"] == "sym" else case["x2"][xb]
         job = "(DRBF %s)" % C.qc_lit(l) if case["fam"] == "rbf" else "(DMatern %d%%nat %s)" % (FAMS[case["fam"]],
                                                                                               C.qc_lit(l))
         out.append("(%s, %s, %s)" % (job, qm(xa), qm(xc)))
     return out
 
 
+def second_cotangent(G):
+    """a second upstream gradient for the SAME graph: other direction, other signs"""
+    return 0.5 * G.flip(-1) - 0.25 * G + 0.125
+
+
+def kernel_paths(case):
+    """code paths through which the same covariance entries (and their gradients) are requested"""
+    if case["call"] == "diag":
+        # fast = diagonal of the full matrix (RBFCovariance / MaternCovariance), diag = the generic diag=True path,
+        # lazy-diagonal = LazyEvaluatedKernelTensor.diagonal(), xgrad = diag=True with x1.requires_grad (input gradients)
+        return ("fast", "diag", "lazy-diagonal", "xgrad")
+    return ("fast", "generic", "xgrad")
+
+
 def kernel_impl(case, kern, path):
+    """-> dict(K, g / g2 / g_again = d/d lengthscale of sum(G K), sum(G2 K) and sum(G K) once more, all three through the
+    SAME retained graph; gx / gx2 / gx_again = the same w.r.t. x1 on the xgrad path)"""
     x1 = torch.tensor(case["x1"])
     x2 = torch.tensor(case["x2"])
     if len(case["x1"]) == 1:
@@ -111,23 +139,47 @@ def kernel_impl(case, kern, path):
     G = torch.tensor(case["G"])
     if case["batch"] == "none":
         G = G[0]
+    if path == "xgrad":
+        x1 = x1.clone().requires_grad_(True)
     cms = [gs.trace_mode(True)] if path == "generic" else []
     for c in cms:
         c.__enter__()
     try:
-        Kd = (kern(x1, x2) if case["call"] == "full" else kern(x1)).to_dense()
-        (g_raw,) = torch.autograd.grad((Kd * G).sum(), kern.raw_lengthscale)
+        if case["call"] == "diag":
+            if path == "fast":
+                Kd = kern(x1, x2).to_dense().diagonal(dim1=-1, dim2=-2)
+            elif path == "lazy-diagonal":
+                Kd = kern(x1, x2).diagonal()
+            else:
+                Kd = kern(x1, x2, diag=True)
+            G = G.diagonal(dim1=-1, dim2=-2)
+        else:
+            Kd = (kern(x1, x2) if case["call"] == "full" else kern(x1)).to_dense()
+        inputs = [kern.raw_lengthscale] + ([x1] if path == "xgrad" else [])
+        G2 = second_cotangent(G)
+        if Kd.requires_grad:
+            r = [torch.autograd.grad(Kd, inputs, grad_outputs=Gk, retain_graph=True, allow_unused=True) for Gk in (G, G2, G)]
+        else:                     # (a constant: e.g. the diag=True request with x1 == x2 as a whole)
+            r = [[None] * len(inputs)] * 3
+        r = [[torch.zeros_like(t) if g_ is None else g_ for g_, t in zip(rr, inputs)] for rr in r]
     finally:
         for c in reversed(cms):
             c.__exit__(None, None, None)
     (chain,) = torch.autograd.grad(kern.lengthscale.sum(), kern.raw_lengthscale)
-    return Kd.detach(), (g_raw / chain).reshape(-1).tolist()
+    res = dict(K=Kd.detach(), G2=G2)
+    for nm, rr in zip(("", "2", "_again"), r):
+        res["g" + nm] = (rr[0] / chain).reshape(-1).tolist()
+        if path == "xgrad":
+            res["gx" + nm] = rr[1].detach()
+    return res
 
 
 def check_kernel(out, case, kern, results):
     nb = len(case["ls"])
     n1 = len(case["x1"][0])
-    cols = len(case["x2"][0]) if case["call"] == "full" else n1
+    call = case["call"]
+    diag = call == "diag"
+    cols = n1 if call == "sym" else len(case["x2"][0])
     ls = kern.lengthscale.detach().reshape(-1).tolist()
     vals, dks = [], []
     for b in range(nb):
@@ -142,51 +194,129 @@ def check_kernel(out, case, kern, results):
         vals.append(v)
         dks.append(dk)
     desc = dict(case=case)
-    tag = "%s:%s:%s" % (case["fam"], case["call"], case["batch"])
+    tag = "%s:%s:%s" % (case["fam"], call, case["batch"])
+    entries = [(i, i) for i in range(n1)] if diag else [(i, j) for i in range(n1) for j in range(cols)]
+
+    def pts(b):
+        xb = b if len(case["x1"]) > 1 else 0
+        xa = case["x1"][xb]
+        return xa, (xa if call == "sym" else case["x2"][xb])
+    G1 = [[[case["G"][b][i][j] for j in range(cols)] for i in range(n1)] for b in range(nb)]
     got = {}
-    for path in ("fast", "generic"):
+    for path in kernel_paths(case):
         try:
-            Kd, g = kernel_impl(case, kern, path)
+            r = kernel_impl(case, kern, path)
         except Exception as e:
             out.fail("kernel:%s:%s:exception:%s" % (tag, path, type(e).__name__), "public kernel call / autograd raised %r"
                      % (e,), desc)
             continue
-        got[path] = (Kd, g)
-        Kb = Kd.reshape(nb, n1, cols).tolist()
+        got[path] = r
+        shp = (nb, n1) if diag else (nb, n1, cols)
+        if r["K"].numel() != math.prod(shp):
+            out.fail("kernel:%s:%s:shape" % (tag, path), "kernel output has shape %s" % (list(r["K"].shape),), desc)
+            continue
+        Kb = r["K"].reshape(shp).tolist()
+        G2t = r["G2"].reshape(shp).tolist()
         for b in range(nb):
-            xb = b if len(case["x1"]) > 1 else 0
-            xa = case["x1"][xb]
-            xc = case["x2"][xb] if case["call"] == "full" else xa
+            xa, xc = pts(b)
             bad = None
-            for i in range(n1):
-                for j in range(cols):
-                    at = VAL_ATOL_COINCIDENT if (case["fam"] != "rbf" and xa[i] == xc[j]) else 1e-12
-                    if not C.close(Kb[b][i][j], vals[b][i][j], at, VAL_RTOL):
-                        bad = bad or (i, j, Kb[b][i][j], float(vals[b][i][j]))
+            for (i, j) in entries:
+                kij = Kb[b][i] if diag else Kb[b][i][j]
+                at = VAL_ATOL_COINCIDENT if (case["fam"] != "rbf" and xa[i] == xc[j]) else 1e-12
+                if not C.close(kij, vals[b][i][j], at, VAL_RTOL):
+                    bad = bad or (i, j, kij, float(vals[b][i][j]))
             if bad:
                 out.fail("kernel:%s:%s:value" % (tag, path), "kernel value on the %s path differs from the forward "
                          "function at entry (%d,%d): impl %.12g model %.12g" % ((path,) + bad), desc)
-            want = mpmath.fsum(mpmath.mpf(case["G"][b][i][j]) * dks[b][i][j] for i in range(n1) for j in range(cols))
-            S = sum(abs(case["G"][b][i][j]) for i in range(n1) for j in range(cols)) / ls[b]
-            tol = (GRAD_TOL_FAST if path == "fast" else GRAD_TOL_GENERIC) * S
-            if not (abs(g[b] - float(want)) <= tol):
-                out.fail("kernel:%s:%s:lengthscale-grad" % (tag, path),
-                         "d/d lengthscale of sum(G*K) on the %s path: autograd %.12g, derivative of the forward "
-                         "function %.12g (lengthscale %.6g, scale %.3g)" % (path, g[b], float(want), ls[b], S), desc,
-                         impl=g, model=float(want))
-    if len(got) == 2:                                  # fast and generic paths against each other
-        (Kf, gf), (Kg, gg) = got["fast"], got["generic"]
+            # lengthscale gradients for the two cotangents, and the first one once more (same retained graph)
+            G2b = {(i, j): (G2t[b][i] if diag else G2t[b][i][j]) for (i, j) in entries}
+            for nm, cot in (("", {e: G1[b][e[0]][e[1]] for e in entries}), ("2", G2b)):
+                want = mpmath.fsum(mpmath.mpf(cot[e]) * dks[b][e[0]][e[1]] for e in entries)
+                S = sum(abs(cot[e]) for e in entries) / ls[b]
+                tol = (GRAD_TOL_FAST if path == "fast" else GRAD_TOL_GENERIC) * S
+                g = r["g" + nm][b]
+                if not (abs(g - float(want)) <= tol):          # (NaN / inf fail this comparison)
+                    what = "is not finite" if not math.isfinite(g) else "differs from the derivative of the forward function"
+                    out.fail("kernel:%s:%s:lengthscale-grad%s" % (tag, path, ":second-backward" if nm else ""),
+                             "d/d lengthscale of sum(G*K) on the %s path (%s backward pass through the graph) %s: autograd %.12g, "
+                             "model %.12g (lengthscale %.6g, scale %.3g)" % (path, "second" if nm else "first", what, g, float(want),
+                                                                            ls[b], S), desc, impl=r["g" + nm], model=float(want))
+            if not (r["g_again"][b] == r["g"][b]):
+                out.fail("kernel:%s:%s:lengthscale-grad:repeated-backward" % (tag, path),
+                         "backward with the same upstream gradient through the same graph gave %.17g the first and %.17g the "
+                         "third time" % (r["g"][b], r["g_again"][b]), desc, impl=r["g_again"], model=r["g"])
+        if path == "xgrad":
+            check_input_grads(out, case, tag, r, dks, ls, entries, G1, G2t, pts, desc)
+    ref = got.get("fast")
+    for path, r in got.items():                        # every path against the fast path
+        if path == "fast" or ref is None or r["K"].shape != ref["K"].shape:
+            continue
         at = VAL_ATOL_COINCIDENT if case["fam"] != "rbf" else 1e-12
-        if not torch.allclose(Kf, Kg, rtol=1e-9, atol=at):
-            out.fail("kernel:%s:fast-vs-generic:value" % tag, "fast and generic paths return different values", desc,
-                     impl=Kf, model=Kg)
+        if not torch.allclose(ref["K"], r["K"], rtol=1e-9, atol=at):
+            out.fail("kernel:%s:fast-vs-%s:value" % (tag, path), "fast and %s paths return different values" % path, desc,
+                     impl=ref["K"], model=r["K"])
         for b in range(nb):
-            S = sum(abs(v) for r in case["G"][b] for v in r) / ls[b]
-            if not abs(gf[b] - gg[b]) <= GRAD_TOL_GENERIC * S:
-                out.fail("kernel:%s:fast-vs-generic:lengthscale-grad" % tag, "fast path gradient %.12g, generic path "
-                         "gradient %.12g" % (gf[b], gg[b]), desc)
-    flat = [float(v) for b in range(nb) for r in dks[b] for v in r]
+            S = sum(abs(G1[b][i][j]) for (i, j) in entries) / ls[b]
+            for nm in ("", "2"):
+                if not abs(ref["g" + nm][b] - r["g" + nm][b]) <= GRAD_TOL_GENERIC * S:
+                    out.fail("kernel:%s:fast-vs-%s:lengthscale-grad" % (tag, path), "fast path gradient %.12g, %s path "
+                             "gradient %.12g" % (ref["g" + nm][b], path, r["g" + nm][b]), desc)
+    flat = [float(dks[b][i][j]) for b in range(nb) for (i, j) in entries]
     return any(abs(v) > 1e-12 for v in flat)
+
+
+def check_input_grads(out, case, tag, r, dks, ls, entries, G1, G2t, pts, desc):
+    """gradient of sum(G*K) with respect to x1 (generic path: x1.requires_grad) against the chain rule applied to the
+    model's d k / d lengthscale:  k depends on (x, y, l) through s = |x - y|^2 / l^2 only, ds/dl = -2 s / l,
+    ds/dx_m = 2 (x_m - y_m) / l^2, hence  dk/dx_m = -(dk/dl) l (x_m - y_m) / |x - y|^2  (0 at x = y for the kernels that are
+    differentiable there; Matern-1/2 has a kink at x = y: only finiteness is required of rows with a coincident partner)"""
+    nb = len(ls)
+    call = case["call"]
+    diag = call == "diag"
+    d = case["d"]
+    n1 = len(case["x1"][0])
+    for nm in ("", "2", "_again"):
+        gx = r["gx" + nm]
+        if not torch.isfinite(gx).all():
+            out.fail("kernel:%s:xgrad:input-grad:non-finite" % tag, "gradient of sum(G*K) w.r.t. x1 contains NaN / inf (%s backward "
+                     "pass)" % {"": "first", "2": "second", "_again": "third"}[nm], desc, impl=gx)
+            return
+    if not torch.equal(r["gx"], r["gx_again"]):
+        out.fail("kernel:%s:xgrad:input-grad:repeated-backward" % tag, "backward with the same upstream gradient through the same "
+                 "graph gave different input gradients the first and the third time", desc, impl=r["gx_again"], model=r["gx"])
+    xb_n = len(case["x1"])
+    for nm in ("", "2"):
+        gx = r["gx" + nm].reshape(xb_n, n1, d)
+        want = [[[mpmath.mpf(0)] * d for _ in range(n1)] for _ in range(xb_n)]
+        scale = [[0.0] * n1 for _ in range(xb_n)]
+        kink = [[False] * n1 for _ in range(xb_n)]
+        for b in range(nb):
+            xb = b if xb_n > 1 else 0
+            xa, xc = pts(b)
+            for (i, j) in entries:
+                if nm == "":
+                    cot = G1[b][i][j] + (G1[b][j][i] if call == "sym" else 0.0)
+                else:
+                    g2 = (lambda a_, b_: G2t[b][a_] if diag else G2t[b][a_][b_])
+                    cot = g2(i, j) + (g2(j, i) if call == "sym" else 0.0)
+                D2 = sum((mpmath.mpf(xa[i][m]) - mpmath.mpf(xc[j][m])) ** 2 for m in range(d))
+                scale[xb][i] += abs(cot) / ls[b]
+                if D2 == 0:
+                    kink[xb][i] = kink[xb][i] or case["fam"] == "matern05"
+                    continue
+                for m in range(d):
+                    want[xb][i][m] += -cot * dks[b][i][j] * ls[b] * (mpmath.mpf(xa[i][m]) - mpmath.mpf(xc[j][m])) / D2
+        for xb in range(xb_n):
+            for i in range(n1):
+                if kink[xb][i]:
+                    continue
+                for m in range(d):
+                    gv = gx[xb, i, m].item()
+                    if not abs(gv - float(want[xb][i][m])) <= GRAD_TOL_GENERIC * max(scale[xb][i], 1e-300):
+                        out.fail("kernel:%s:xgrad:input-grad%s" % (tag, ":second-backward" if nm else ""),
+                                 "d/dx1[%d][%d] of sum(G*K): autograd %.12g, chain rule on the model's derivative %.12g"
+                                 % (i, m, gv, float(want[xb][i][m])), desc, impl=gx, model=[[[float(v) for v in row] for row in bb] for bb in want])
+                        return
 
 
 # --------------------------------------------------------------------------- log normal cdf
@@ -227,28 +357,48 @@ def lncdf_branch(z):
 
 
 def check_lncdf_vec(out, case, results):
-    """vector-Jacobian product of one call on a matrix of inputs (all branches mixed) with a random-sign cotangent:
-    entry (i,j) of the delivered gradient = G_ij * d/dz log Phi(z_ij) (Coq model term per entry)"""
+    """vector-Jacobian products of ONE call on a matrix of inputs (all branches mixed): three backward passes through the
+    same retained graph (cotangent G, a second cotangent G2, G again) and torch.autograd.functional.jacobian.  Entry (i,j)
+    of every delivered gradient = cotangent_ij * d/dz log Phi(z_ij) (Coq model term per entry); the Jacobian is diagonal."""
     z = torch.tensor(case["z"], requires_grad=True)
     G = torch.tensor(case["up"])
+    G2 = second_cotangent(G)
     v = gpytorch.functions.log_normal_cdf(z)
-    (g,) = torch.autograd.grad(v, z, grad_outputs=G)
+    passes = [("first", G, torch.autograd.grad(v, z, grad_outputs=G, retain_graph=True)[0]),
+              ("second", G2, torch.autograd.grad(v, z, grad_outputs=G2, retain_graph=True)[0]),
+              ("third", G, torch.autograd.grad(v, z, grad_outputs=G, retain_graph=True)[0])]
+    zf = torch.tensor(case["z"]).reshape(-1)
+    J = torch.autograd.functional.jacobian(gpytorch.functions.log_normal_cdf, zf)
     k = 0
+    ncol = len(case["z"][0])
     for i, row in enumerate(case["z"]):
         for j, zz in enumerate(row):
             rd = C.Reader(results[k])
             k += 1
             val, der = rd.expr(), rd.expr()
-            sign = "neg" if case["up"][i][j] < 0 else "pos"
             if not C.close(v[i, j].item(), val, 0.0, LNCDF_RTOL):
                 out.fail("lncdf:vec:value:%s" % lncdf_branch(zz), "log_normal_cdf entry (%d,%d) at z=%.9g: %.12g, log Phi %.12g"
                          % (i, j, zz, v[i, j].item(), float(val)), dict(case=case), impl=v[i, j].item(), model=float(val))
-            want = case["up"][i][j] * float(der)
-            if not C.close(g[i, j].item(), want, 0.0, LNCDF_RTOL):
-                out.fail("lncdf:vjp:%s:%s-cotangent" % (lncdf_branch(zz), sign),
-                         "vector-Jacobian product of log_normal_cdf, entry (%d,%d) at z=%.9g with upstream gradient %.6g: "
-                         "delivered %.12g, G * phi/Phi %.12g" % (i, j, zz, case["up"][i][j], g[i, j].item(), want),
-                         dict(case=case), impl=g[i, j].item(), model=want)
+            for which, cot, g in passes:
+                want = cot[i, j].item() * float(der)
+                sign = "neg" if cot[i, j].item() < 0 else "pos"
+                if not C.close(g[i, j].item(), want, 0.0, LNCDF_RTOL):
+                    out.fail("lncdf:vjp:%s:%s-cotangent%s" % (lncdf_branch(zz), sign, "" if which == "first" else ":%s-backward" % which),
+                             "vector-Jacobian product of log_normal_cdf (%s backward pass through the same graph), entry (%d,%d) at "
+                             "z=%.9g with upstream gradient %.6g: delivered %.12g, G * phi/Phi %.12g"
+                             % (which, i, j, zz, cot[i, j].item(), g[i, j].item(), want), dict(case=case), impl=g[i, j].item(), model=want)
+            f = i * ncol + j
+            if not C.close(J[f, f].item(), der, 0.0, LNCDF_RTOL):
+                out.fail("lncdf:jacobian:%s" % lncdf_branch(zz), "torch.autograd.functional.jacobian of log_normal_cdf, diagonal entry "
+                         "%d at z=%.9g: %.12g, phi/Phi %.12g" % (f, zz, J[f, f].item(), float(der)), dict(case=case),
+                         impl=J[f, f].item(), model=float(der))
+    off = J - torch.diag(J.diagonal())
+    if not (off.abs().max().item() == 0.0):
+        out.fail("lncdf:jacobian:off-diagonal", "Jacobian of the elementwise log_normal_cdf has non-zero / non-finite off-diagonal entries",
+                 dict(case=case), impl=off)
+    if not torch.equal(passes[0][2], passes[2][2]):
+        out.fail("lncdf:vjp:repeated-backward", "the same upstream gradient through the same graph gave different results the first "
+                 "and the third time", dict(case=case), impl=passes[2][2], model=passes[0][2])
     return True
 
 
@@ -258,8 +408,15 @@ def check_lncdf(out, case, res):
     z = torch.tensor([case["z"]], requires_grad=True)
     up = case.get("up", 1.7)
     v = gpytorch.functions.log_normal_cdf(z)
-    (g,) = torch.autograd.grad((up * v).sum(), z)
+    (g,) = torch.autograd.grad((up * v).sum(), z, retain_graph=True)
     br = lncdf_branch(case["z"])
+    for which, u2 in (("second", -0.5 * up), ("third", up)):      # further backward passes through the same graph
+        (gk,) = torch.autograd.grad(v, z, grad_outputs=torch.tensor([u2]), retain_graph=True)
+        if not C.close(gk.item() / u2, der, 0.0, LNCDF_RTOL):
+            out.fail("lncdf:grad:%s:%s-backward" % (br, which),
+                     "d/dz log_normal_cdf at z=%.9g on the %s backward pass through the same graph (upstream gradient %.4g): "
+                     "autograd/upstream %.12g, phi/Phi %.12g" % (case["z"], which, u2, gk.item() / u2, float(der)),
+                     dict(case=case), impl=gk.item() / u2, model=float(der))
     if not C.close(g.item() / up, der, 0.0, LNCDF_RTOL):
         out.fail("lncdf:grad:%s:%s-cotangent" % (br, "neg" if up < 0 else "pos"),
                  "d/dz log_normal_cdf at z=%.9g (upstream gradient %.4g): autograd/upstream %.12g, phi/Phi %.12g (rel %.2e)"
@@ -274,6 +431,44 @@ def check_lncdf(out, case, res):
                  "computed (central difference %.10g) at z=%.9g" % (g.item() / up, fd, case["z"]), dict(case=case),
                  impl=g.item() / up, model=fd)
     return True
+
+
+# --------------------------------------------------------------------------- repeated backward passes
+def repeated_backward(out, key, desc, make, tol=1e-12):
+    """A hand-written backward must be a pure function of the saved forward state and the upstream gradient.  make() builds a
+    FRESH graph and returns (outputs, inputs).  On one retained graph: backward with cotangents A, B, A; on a second, fresh
+    graph: B first.  Required: third pass == first pass (bitwise), second pass == first pass of the fresh graph with the same
+    cotangent (relative `tol`), everything finite."""
+    outs, ins = make()
+    gen = torch.Generator().manual_seed(12345)
+    A = [torch.randn(o.shape, generator=gen) for o in outs]
+    B = [second_cotangent(a) if a.dim() else 0.5 - a for a in A]
+
+    def bw(outs_, ins_, cot):
+        gs_ = torch.autograd.grad(outs_, ins_, grad_outputs=cot, retain_graph=True, allow_unused=True)
+        return [torch.zeros_like(t) if g_ is None else g_.detach().clone() for g_, t in zip(gs_, ins_)]
+    g1, g2, g3 = bw(outs, ins, A), bw(outs, ins, B), bw(outs, ins, A)
+    outs_f, ins_f = make()
+    h2 = bw(outs_f, ins_f, B)
+    ok = True
+    for k, (a, b, c, h) in enumerate(zip(g1, g2, g3, h2)):
+        if not all(torch.isfinite(t).all() for t in (a, b, c)):
+            ok = False
+            out.fail(key + ":repeated-backward:non-finite", "a gradient delivered on repeated backward passes contains NaN / inf (input %d)" % k,
+                     desc, impl=[a, b, c])
+            continue
+        if not torch.equal(a, c):
+            ok = False
+            out.fail(key + ":repeated-backward:same-cotangent", "backward with the same upstream gradient through the same retained "
+                     "graph gave different results the first and the third time (input %d, max abs diff %.3g)"
+                     % (k, (a - c).abs().max().item()), desc, impl=c, model=a)
+        sc = 1.0 + h.abs().max().item()
+        if not torch.allclose(b, h, rtol=0, atol=tol * sc):
+            ok = False
+            out.fail(key + ":repeated-backward:second-pass", "the second backward pass through a retained graph differs from the first "
+                     "backward pass of a fresh graph with the same upstream gradient (input %d, max abs diff %.3g)"
+                     % (k, (b - h).abs().max().item()), desc, impl=b, model=h)
+    return ok
 
 
 # --------------------------------------------------------------------------- natural parameterisations
@@ -358,6 +553,12 @@ def check_nat_diag(out, case, results):
         if off.abs().max().item() > NAT_TOL:
             out.fail(key + ":offdiag", "off-diagonal natural gradient should vanish for a diagonal problem",
                      dict(case=case), impl=matpar.grad)
+
+    def make():
+        vd_, mp_ = make_vd(case["cls"], n, torch.tensor(case["th1"]), torch.diag(torch.tensor(case["th2"])))
+        d_ = vd_()
+        return [d_.mean, d_.lazy_covariance_matrix.cholesky().to_dense()], [vd_.natural_vec, mp_]
+    ok = repeated_backward(out, key, dict(case=case), make) and ok
     return ok
 
 
@@ -393,6 +594,12 @@ def check_nat_full(out, case):
         ok = False
         out.fail(key + ":d/d eta2", "gradient delivered for the matrix parameter differs from d out/d eta2 "
                  "(autograd through eta -> (mu, chol)), n=%d" % n, dict(case=case), impl=matpar.grad, model=want)
+
+    def make():
+        vd_, mp_ = make_vd(case["cls"], n, th1, -0.5 * P, batch_shape=bs)
+        d_ = vd_()
+        return [d_.mean, d_.lazy_covariance_matrix.cholesky().to_dense()], [vd_.natural_vec, mp_]
+    ok = repeated_backward(out, key, dict(case=case), make) and ok
     return ok
 
 
@@ -459,7 +666,22 @@ def check_ciq1(out, case, res):
         for c in reversed(cms):
             c.__exit__(None, None, None)
     got = dict(mean=im.item(), var=iv.item(), dk=k.grad.item(), deta1=th1.grad.item(), deta2=th2.grad.item())
-    ok = True
+    rep_ok = True
+
+    def make():
+        k_ = torch.tensor([[case["k"]]], requires_grad=True)
+        a_ = torch.tensor([case["th1"]], requires_grad=True)
+        b_ = torch.tensor([[case["th2"]]], requires_grad=True)
+        return list(_NgdInterpTerms.apply(k_, a_, b_)), [k_, a_, b_]
+    cms = ciq_tight()
+    for c in cms:
+        c.__enter__()
+    try:
+        rep_ok = repeated_backward(out, "ciq-ngd:n=1", dict(case=case), make, tol=1e-9)
+    finally:
+        for c in reversed(cms):
+            c.__exit__(None, None, None)
+    ok = rep_ok
     for name in ("mean", "var", "dk", "deta1", "deta2"):
         if not C.close(got[name], want[name], 1e-9, 1e-9):
             ok = False
@@ -544,6 +766,23 @@ def check_ciq_ngd(out, case):
     finally:
         for c in reversed(cms):
             c.__exit__(None, None, None)
+    rep_ok = True
+    if case["form"] == "vjp":
+        # repeated backward passes through one retained graph of the strategy (outputs: mean, variance, KL)
+        def make():
+            q_ = model(X)
+            ins = [vd.natural_vec, vd.natural_mat] + [p_ for n_, p_ in model.named_parameters()
+                                                        if n_.split(".")[-1] not in ("natural_vec", "natural_mat")]
+            return [q_.mean, q_.variance, vs.kl_divergence()], ins
+        cms = ciq_tight()
+        for c in cms:
+            c.__enter__()
+        try:
+            rep_ok = repeated_backward(out, "ciq-ngd:%s:%s%s" % (case["form"], case["state"], ":batch" if case["batch"] else ""),
+                                       dict(case=case), make, tol=CIQ_TOL)
+        finally:
+            for c in reversed(cms):
+                c.__exit__(None, None, None)
     # ---- dense reference
     Zr = ref.variational_strategy.inducing_points
     full = torch.cat([Zr, X], -2)
@@ -572,7 +811,7 @@ def check_ciq_ngd(out, case):
     hyper = [(n, p) for n, p in ref.named_parameters() if n.split(".")[-1] not in skip]
     grads = torch.autograd.grad(rl, [e1, e2] + [p for _, p in hyper], allow_unused=True)
     key = "ciq-ngd:%s:%s%s" % (case["form"], case["state"], ":batch" if case["batch"] else "")
-    ok = True
+    ok = rep_ok
 
     def cmp(name, got, want, what):
         nonlocal ok
@@ -733,8 +972,14 @@ def run(out, ctx):
     items += gen_ciq1(rng, tier)
     out.rule = ("RBF and Matern nu in {1/2,3/2,5/2}: d in 1..3, n1, n2 in 1..4, lengthscale 10^k*U(0.5,2) for every "
                 "k in -2..2 with inputs on a dyadic grid of the same magnitude, coincident rows across and inside "
-                "x1/x2, calls K(x1,x2) and K(x1), no batch / kernel batch / kernel+input batch, Gaussian upstream G; "
-                "fast path (default) and generic path (trace_mode), each against the model and against each other. "
+                "x1/x2, calls K(x1,x2), K(x1) and the diag=True request K(x1,x2',diag=True) with coincident PAIRS inside "
+                "otherwise different x1, x2', no batch / kernel batch / kernel+input batch, Gaussian upstream G; "
+                "paths: fast (default; for diag: diagonal of the full matrix), generic (trace_mode / diag=True), "
+                "LazyEvaluatedKernelTensor.diagonal(), x1.requires_grad (input gradients against the chain rule on the "
+                "model's lengthscale derivative), each against the model and against the fast path; any NaN / inf fails. "
+                "EVERY hand-written backward (kernels, log_normal_cdf, natural / tril-natural, _NgdInterpTerms) is run three "
+                "times through one retained graph (cotangent A, another cotangent B, A again: third == first bitwise, second "
+                "correct / equal to a fresh graph's first pass), log_normal_cdf also through torch.autograd.functional.jacobian. "
                 "log_normal_cdf: near-zero, ordinary, tail start (-5.5,-5), far-tail (< -5.5) and branch boundaries, every scalar "
                 "case with a random-magnitude upstream gradient of alternating sign, plus vector-Jacobian products of one call "
                 "on a matrix mixing all branches with a random-sign non-constant cotangent. "
@@ -756,6 +1001,9 @@ def run(out, ctx):
         "with torch autograd through an independent re-implementation of eta -> (mu, chol)",
         "prediction gradients w.r.t. test inputs: compared with central differences of the implementation",
         "autograd's chain rule and the softplus constraint between raw_lengthscale and lengthscale",
+        "input gradients for d > 1 and sums over several pairs: reference = chain rule applied per pair to the model's lengthscale "
+        "derivative (proved per coordinate: c19_matern_input_gradient_chain, c19_rbf_input_gradient_chain, "
+        "c19_matern32/52_input_gradient_coincident); Matern-1/2 at coincident pairs (kink): finiteness only",
         "CIQ natural-gradient terms (_NgdInterpTerms.backward) for more than one inducing value / data point (one of each: "
         "proved, c19_ciq_ngd_*_partial, and compared with the Coq model): gradients delivered to natural_vec / natural_mat / "
         "hyperparameters / inducing points through weighted mean+variance+KL, KL alone and VariationalELBO compared with "
